@@ -187,6 +187,13 @@ func (c *ATConn) createNewTxOnExecIfNeed(ctx context.Context, f func() (types.Ex
 
 	ret, err := f()
 	if err != nil {
+		if tx != nil {
+			// the statement failed inside the transaction opened above: end it, or the
+			// connection goes back to the pool with the transaction open
+			if rollbackErr := tx.Rollback(); rollbackErr != nil {
+				log.Errorf("conn at rollback error:%v", rollbackErr)
+			}
+		}
 		return nil, err
 	}
 
